@@ -2,7 +2,7 @@
    Constant pacer: proved in full (exact integer arithmetic).  Linear and sine pacers: see
    the partial statements at the end and DESIGN.md. *)
 From Coq Require Import ZArith List Bool Lia.
-From V Require Import Model.AttackLTS Proofs.AttackProofs Proofs.LoopScheduleProofs.
+From V Require Import Model.AttackLTS Proofs.AttackProofs Proofs.LoopScheduleProofs Proofs.LoopScheduleLinear.
 From V Require Import Model.Pacer Proofs.PacerProofs Model.LinearPacer Proofs.LinearProofs Model.Trig Model.SinePacer Proofs.TrigProofs Proofs.SineProofs.
 From Coq Require Import Qround.
 Import ListNotations.
@@ -140,6 +140,13 @@ Theorem linear_closed_loop_upper : forall F P a stalls, 0 <= a -> (0 < F)%Z -> (
 Proof. exact lin_closed_loop_lemma. Qed.
 Print Assumptions linear_closed_loop_upper.
 
+(* the same for the loop that really runs (attack LTS, any workers / interleaving / late wake-ups) *)
+Theorem attack_loop_linear_on_schedule : forall F P a c s, 0 <= a -> (0 < F)%Z -> (0 < P)%Z -> reachable c s ->
+  (forall e h w, In (e, h, w, false) (paces s) -> lin_dom F P a e h /\ lin_pace_o F P a e h = Wait w) ->
+  lin_adm F P a (now s) (count s) /\ (AttackLTS.seq s <= count s)%Z.
+Proof. exact lin_loop_lts_lemma. Qed.
+Print Assumptions attack_loop_linear_on_schedule.
+
 Theorem linear_positive_wait : forall F P a t k w, (0 < F)%Z -> (0 < P)%Z ->
   lin_pace F P a t k = LWait w -> (0 < w)%Z -> (Qfloor (lin_H a (lin_b F P) t) <= k)%Z.
 Proof. exact lin_positive_wait_lemma. Qed.
@@ -198,6 +205,24 @@ Proof.
   - clear. revert stalls. intros stalls. generalize (0, 0)%Z. induction stalls as [|s tl IH]; intros st; cbn; [exact I|].
     split; [exact I|]. destruct (loop_step pace st s); [apply IH | exact I].
 Qed.
+(* PARTIAL, likewise, for the loop that really runs (attack LTS) *)
+Theorem attack_loop_sine_on_schedule_partial : forall p (pace : Z -> Z -> outcome) c s,
+  (0 < s_period p)%Z -> 0 <= Q2R (s_amp p) <= Q2R (s_mean p) ->
+  (forall t k w, pace t k = Wait w -> IZR k <= sine_H_R p t + 1 -> IZR (k + 1) <= sine_H_R p (t + Z.max w 0) + 1) ->
+  reachable c s ->
+  (forall e h w, In (e, h, w, false) (paces s) -> pace e h = Wait w) ->
+  IZR (count s) <= sine_H_R p (now s) + 1 /\ (AttackLTS.seq s <= count s)%Z.
+Proof.
+  intros p pace c s HP HA Hc R Hp.
+  destruct (loop_on_schedule_lemma pace (fun t k => IZR k <= sine_H_R p t + 1) (fun _ _ => True)) with (c := c) (s := s) as (A & _ & B).
+  - intros t t' k H Ht. pose proof (sine_H_mono p t t' HP HA Ht). lra.
+  - intros t k w _ H E. exact (Hc t k w E H).
+  - unfold sine_H_R. cbn. lra.
+  - exact R.
+  - intros e h w Hin. split; [exact I | exact (Hp e h w Hin)].
+  - split; [exact A | exact B].
+Qed.
+Print Assumptions attack_loop_sine_on_schedule_partial.
 End Sine.
 
 Example const_example :
